@@ -296,6 +296,8 @@ func runC02(e *Engine, r *Report) {
 	} else {
 		r.undecided("TBL", "raft handler table", err.Error())
 	}
+	ruleRestoreRebase(e, r)
+	ruleTermInMemFirst(e, r)
 }
 
 // runDET: no wall clock / randomness / unordered map iteration feeding state
